@@ -2,6 +2,9 @@ use pfv::props;
 use pfv::runner::{self, Ctx, Known, Outcome};
 use std::time::Instant;
 
+#[global_allocator]
+static GLOBAL: pfv::alloc::Counting = pfv::alloc::Counting;
+
 fn usage() -> ! {
     eprintln!("usage: pfverif check <C01..C18> <quick|thorough> | replay <file> | optable | selftest");
     std::process::exit(2);
@@ -29,6 +32,15 @@ fn run_check(ctx: &Ctx) -> Outcome {
         "C10" => props::outputs::run_c10(ctx),
         "C11" => props::outputs::run_c11(ctx),
         "C17" => props::c17::run(ctx),
+        "C07" => props::procs::run_c07(ctx),
+        "C08" => props::lib_level::run_c08(ctx),
+        "C09" => props::procs::run_c09(ctx),
+        "C12" => props::lib_level::run_c12(ctx),
+        "C13" => props::frontends::run_c13(ctx),
+        "C14" => props::lib_level::run_c14(ctx),
+        "C15" => props::c15::run(ctx),
+        "C16" => props::direct::run_c16(ctx),
+        "C18" => props::direct::run_c18(ctx),
         _ => {
             eprintln!("unknown property {}", ctx.prop);
             std::process::exit(2);
@@ -38,7 +50,9 @@ fn run_check(ctx: &Ctx) -> Outcome {
 
 fn main() {
     // generation panics are caught and judged by the oracles; keep stderr quiet
-    std::panic::set_hook(Box::new(|_| {}));
+    if std::env::var_os("PFV_SHOW_PANICS").is_none() {
+        std::panic::set_hook(Box::new(|_| {}));
+    }
     let args: Vec<String> = std::env::args().collect();
     if args.len() < 2 {
         usage();
@@ -60,10 +74,26 @@ fn main() {
             }
             let out = match out_pre {
                 Some(o) => o,
-                None => run_check(&ctx),
+                None => match std::panic::catch_unwind(std::panic::AssertUnwindSafe(|| run_check(&ctx))) {
+                    Ok(o) => o,
+                    Err(p) => {
+                        // a panic of the harness itself is never a verdict about the repository
+                        println!("INCONCLUSIVE property={} the harness panicked: {}", ctx.prop, pfv::case::panic_message(p));
+                        std::process::exit(2);
+                    }
+                },
             };
             std::process::exit(runner::finish(&ctx, out, started));
         }
+        "c09-child" => {
+            let ctx = make_ctx("C09", args.get(2).map(|s| s.as_str()).unwrap_or("quick"));
+            std::process::exit(props::procs::c09_child(&ctx));
+        }
+        "c09-one" => {
+            let ctx = make_ctx("C09", "quick");
+            std::process::exit(props::procs::c09_one(&ctx, &args[2]));
+        }
+        "digest-cases" => std::process::exit(props::procs::digest_cases(&args[2])),
         "replay" => {
             if args.len() < 3 {
                 usage();
